@@ -110,10 +110,14 @@ def confusion_cases():
     leaf = optree.treespec_leaf()
     weird = [None, 0, -1, 2 ** 70, 'x', b'y', 1.5, object(), [], {}, (), [1, [2]], {'a': 1}, spec, leaf, lambda *a: None, type, int, ..., float('nan'),
              range(3), iter([1, 2]), {1, 2}, collections.deque([1]), U.NT2(1, 2), U.SS2((1, 2)), U.CA([1], 1),
-             U.NT2, U.SS2, U.CA, U.SubList, [U.NT2, (U.SS2,)], {'cls': U.NT2, 'args': (1, 2)}]
+             U.NT2, U.SS2, U.CA, U.SubList, [U.NT2, (U.SS2,)], {'cls': U.NT2, 'args': (1, 2)}] + \
+            [U.CA([L(1), (L(2), L(3))], 1, None, f) for f in ('tuplelen', 'childiter', 'entlen', 'entiter', 'entshort')] + \
+            [[U.CA([L(1), L(2), L(3)], 1, None, 'entshort'), {'k': U.CA([L(4)], 2, None, 'entlen')}]]
     fns = {
         'tree_flatten(x, is_leaf=w)': lambda w: optree.tree_flatten([1, 2], w),
         'tree_flatten(w)': lambda w: optree.tree_flatten(w),
+        'tree_paths(w)/accessors/structure/leaves': lambda w: [f(w) for f in (optree.tree_paths, optree.tree_accessors, optree.tree_structure, optree.tree_leaves, optree.tree_flatten_with_accessor)],
+        'tree_map(id, w)/flatten_one_level': lambda w: (optree.tree_map(lambda x: x, w), optree.tree_flatten_one_level(w)),
         'tree_flatten_with_path(w)/iter/is_leaf': lambda w: (optree.tree_flatten_with_path(w), list(optree.tree_iter(w)), optree.tree_is_leaf(w), optree.all_leaves([w, 1])),
         'tree_flatten(x, namespace=w)': lambda w: optree.tree_flatten([1], namespace=w),
         'tree_flatten(x, none_is_leaf=w)': lambda w: optree.tree_flatten([1, None], none_is_leaf=w),
